@@ -1,16 +1,10 @@
-"""Configuration of the checks: per property the stages (harness binary, mode, sanitizer flavour, case counts per tier)."""
+"""Configuration of the checks: one JSON file per property under checks.d/ (stages = harness binary, mode,
+sanitizer flavour, case counts per tier; plus the texts that go into MANIFEST.json)."""
+import json
+import os
 
-CHECKS = {
-    "C20": {
-        "level": "exploration",
-        "technique": "runtime monitoring: sorted-array reference oracle over randomized lists/thresholds/queries, under ASan+UBSan",
-        "claim": "Held on the generated lists only: every percentile/median, every histogram bin (count, mean, median), every bin(v) query and ml::store_stats agreed with a reference computed from a sorted copy; exploration is the right level because the input space (lists x thresholds x real queries) is unbounded and the oracle is cheap and exact.",
-        "note": "Trusted: the harness' 20-line reference (position p*(n-1)/100, counting rule v>=threshold goes right); gcc 12 ASan/UBSan. Not covered: lists longer than 500, non-finite values.",
-        "assumptions": ["the reference uses the position formula p*(n-1)/100 and the counting rule 'v >= threshold goes right' of the statement",
-                        "the deviation statistic of ml::store_stats is judged by C11, not here"],
-        "stages": [
-            {"harness": "c20_orderstats", "flavour": "asan", "quick": 20000, "thorough": 200000},
-            {"harness": "c20_orderstats", "flavour": "fast", "quick": 0, "thorough": 2000000},
-        ],
-    },
-}
+CHECKS = {}
+_d = os.path.join(os.path.dirname(os.path.abspath(__file__)), "checks.d")
+for _f in sorted(os.listdir(_d)):
+    if _f.endswith(".json"):
+        CHECKS[_f[:-5]] = json.load(open(os.path.join(_d, _f)))
